@@ -224,3 +224,283 @@ def interesting_times(g):
         out += [fin[-1] * 2 + 1, fin[0] / 2]
     out += [0, 0.0, -0.0, INF, 1e-300, 1e300]
     return [t for t in out if not (isinstance(t, float) and math.isnan(t))]
+
+
+# ---------------------------------------------------------------------------
+# Equivalent spellings of one model (C02) and rule-breaking mutations (C03)
+# ---------------------------------------------------------------------------
+import copy
+
+
+def _ends(doc):
+    """name -> (start, end) from an explicit document"""
+    out = {}
+    for d in doc["demes"]:
+        out[d["name"]] = (d["start_time"], d["epochs"][-1]["end_time"])
+    return out
+
+
+def with_symmetric(rng, doc):
+    """Return (hdm_doc, explicit_doc): hdm_doc has some symmetric migrations with
+    omitted bounds; explicit_doc is the same model with them expanded by hand in
+    itertools.permutations order (bounds still omitted)."""
+    doc = copy.deepcopy(doc)
+    names = [d["name"] for d in doc["demes"]]
+    span = _ends(doc)
+    if len(names) < 2:
+        return doc, copy.deepcopy(doc)
+    grp = rng.sample(names, rng.randint(2, min(4, len(names))))
+    ok = all(max(span[a][1], span[b][1]) < min(span[a][0], span[b][0]) for a in grp for b in grp if a != b)
+    if not ok:
+        return doc, copy.deepcopy(doc)
+    rate = rng.choice([1e-6, 2e-5, 3e-4])
+    used = {(m["source"], m["dest"]) for m in doc["migrations"]}
+    if any((a, b) in used for a in grp for b in grp if a != b):
+        return doc, copy.deepcopy(doc)
+    hdm = copy.deepcopy(doc)
+    exp = copy.deepcopy(doc)
+    pos = rng.randint(0, len(doc["migrations"]))
+    hdm["migrations"].insert(pos, dict(demes=list(grp), rate=rate))
+    expanded = [dict(source=a, dest=b, rate=rate) for i, a in enumerate(grp) for j, b in enumerate(grp) if i != j]
+    exp["migrations"][pos:pos] = expanded
+    return hdm, exp
+
+
+def respell(rng, doc, p=0.5):
+    """An equivalent spelling of an explicit (or partly explicit) document: omit
+    fields whose value is what resolution infers, move common values into
+    defaults, flip int/float representation of integral numbers."""
+    d = copy.deepcopy(doc)
+    span = {}
+    for dm in d["demes"]:
+        if "start_time" in dm and dm.get("epochs") and "end_time" in dm["epochs"][-1]:
+            span[dm["name"]] = (dm["start_time"], dm["epochs"][-1]["end_time"])
+    full = len(span) == len(d["demes"])
+
+    def flip(x):
+        if isinstance(x, bool):
+            return x
+        if isinstance(x, int) and rng.random() < 0.3 and abs(x) < 2 ** 53:
+            return float(x)
+        if isinstance(x, float) and x.is_integer() and rng.random() < 0.3 and abs(x) < 2 ** 53:
+            return int(x)
+        return x
+
+    def coin():
+        return rng.random() < p
+    for dm in d["demes"]:
+        anc = dm.get("ancestors", [])
+        if "start_time" in dm:
+            st = dm["start_time"]
+            if math.isinf(st) and coin():
+                del dm["start_time"]
+            elif len(anc) == 1 and full and st == span[anc[0]][1] and coin():
+                del dm["start_time"]
+            else:
+                dm["start_time"] = flip(st)
+        if "proportions" in dm:
+            if len(anc) == 1 and dm["proportions"] in ([1], [1.0]) and coin():
+                del dm["proportions"]
+            elif len(anc) == 0 and coin():
+                del dm["proportions"]
+        if "ancestors" in dm and not anc and coin():
+            del dm["ancestors"]
+        if dm.get("description") == "" and coin():
+            del dm["description"]
+        eps = dm.get("epochs", [])
+        prev_end_size = None
+        for j, ep in enumerate(eps):
+            ss, es, sf = ep.get("start_size"), ep.get("end_size"), ep.get("size_function")
+            if ss is None or es is None or sf is None:
+                prev_end_size = es
+                continue
+            infer = "constant" if ss == es else "exponential"
+            if sf == infer and coin():
+                del ep["size_function"]
+            drop_ss = j > 0 and prev_end_size is not None and ss == prev_end_size and type(ss) == type(prev_end_size) and coin()
+            if ss == es and type(ss) == type(es):
+                r = rng.random()
+                if drop_ss:
+                    del ep["start_size"]
+                    if coin():
+                        del ep["end_size"]
+                elif r < p / 2:
+                    del ep["end_size"]
+                elif r < p and (j == 0):
+                    del ep["start_size"]
+            elif drop_ss:
+                del ep["start_size"]
+            for k in ("selfing_rate", "cloning_rate"):
+                if ep.get(k) == 0 and isinstance(ep.get(k), int) and coin():
+                    del ep[k]
+            if j == len(eps) - 1 and ep.get("end_time") == 0 and isinstance(ep.get("end_time"), int) and coin():
+                del ep["end_time"]
+            elif "end_time" in ep:
+                ep["end_time"] = ep["end_time"]
+            prev_end_size = es
+    for m in d.get("migrations", []):
+        if "source" in m and full and m["source"] in span and m["dest"] in span:
+            lo = max(span[m["source"]][1], span[m["dest"]][1])
+            hi = min(span[m["source"]][0], span[m["dest"]][0])
+            if "start_time" in m and m["start_time"] == hi and type(m["start_time"]) == type(hi) and coin():
+                del m["start_time"]
+            if "end_time" in m and m["end_time"] == lo and type(m["end_time"]) == type(lo) and coin():
+                del m["end_time"]
+    for k, empty in (("migrations", []), ("pulses", []), ("doi", []), ("metadata", {}), ("description", "")):
+        if d.get(k) == empty and coin():
+            del d[k]
+    if d.get("time_units") == "generations" and d.get("generation_time") == 1 and coin():
+        del d["generation_time"]
+    return d
+
+
+def hoist_defaults(rng, doc):
+    """Move values shared by several places into defaults (deme-level epoch
+    defaults, top-level epoch / migration / pulse / deme defaults); the places
+    that differ keep their explicit value."""
+    d = copy.deepcopy(doc)
+    defaults = {}
+    # deme-level epoch defaults
+    for dm in d["demes"]:
+        eps = dm.get("epochs", [])
+        for k in ("selfing_rate", "cloning_rate", "size_function", "end_size"):
+            vals = [ep[k] for ep in eps if k in ep]
+            if len(vals) == len(eps) and len(eps) >= 1 and rng.random() < 0.4:
+                v = rng.choice(vals)
+                if k == "end_size":
+                    continue
+                for ep in eps:
+                    if ep[k] == v and type(ep[k]) == type(v):
+                        del ep[k]
+                dm.setdefault("defaults", {}).setdefault("epoch", {})[k] = v
+    # top-level epoch defaults: every epoch must carry the field explicitly
+    for k in ("selfing_rate", "cloning_rate"):
+        eps = [ep for dm in d["demes"] for ep in dm.get("epochs", [])]
+        shadow = any(k in dm.get("defaults", {}).get("epoch", {}) for dm in d["demes"])
+        if eps and all(k in ep for ep in eps) and not shadow and rng.random() < 0.4:
+            v = rng.choice([ep[k] for ep in eps])
+            for ep in eps:
+                if ep[k] == v and type(ep[k]) == type(v):
+                    del ep[k]
+            defaults.setdefault("epoch", {})[k] = v
+    ms = d.get("migrations", [])
+    if ms and all("rate" in m for m in ms) and rng.random() < 0.5:
+        v = rng.choice([m["rate"] for m in ms])
+        for m in ms:
+            if m["rate"] == v and type(m["rate"]) == type(v):
+                del m["rate"]
+        defaults.setdefault("migration", {})["rate"] = v
+    ps = d.get("pulses", [])
+    if ps and rng.random() < 0.5:
+        k = rng.choice(["time", "dest", "proportions", "sources"])
+        v = copy.deepcopy(rng.choice(ps)[k])
+        for q in ps:
+            if q[k] == v and repr(q[k]) == repr(v):
+                del q[k]
+        defaults.setdefault("pulse", {})[k] = v
+    dms = d["demes"]
+    if all("description" in dm for dm in dms) and rng.random() < 0.3:
+        v = rng.choice(dms)["description"]
+        for dm in dms:
+            if dm["description"] == v:
+                del dm["description"]
+        defaults.setdefault("deme", {})["description"] = v
+    if defaults:
+        d["defaults"] = defaults
+    return d
+
+
+BAD_NUMS = [0, -0.0, -1, -1e-300, 1e-300, 1, up(1.0), down(1.0), 1 + 1e-9, 1 + 1e-10, 2, INF, -INF,
+            math.nan, True, False]
+
+
+def _paths(node, path=()):
+    yield path, node
+    if isinstance(node, dict):
+        for k, v in node.items():
+            yield from _paths(v, path + (k,))
+    elif isinstance(node, list):
+        for i, v in enumerate(node):
+            yield from _paths(v, path + (i,))
+
+
+def _set(doc, path, val):
+    x = doc
+    for k in path[:-1]:
+        x = x[k]
+    x[path[-1]] = val
+
+
+def _del(doc, path):
+    x = doc
+    for k in path[:-1]:
+        x = x[k]
+    del x[path[-1]]
+
+
+def mutate_value(rng, doc):
+    """Explicit document -> (kind, mutant): one numeric / string value replaced by a
+    boundary value of some rule; every field stays present and of a plausible type."""
+    d = copy.deepcopy(doc)
+    nums = [(p, v) for p, v in _paths(d) if isinstance(v, (int, float)) and not isinstance(v, bool)
+            and (not p or p[0] != "metadata")]
+    span = _ends(doc)
+    times = sorted({t for s in span.values() for t in s if not math.isinf(t)})
+    cands = list(BAD_NUMS)
+    for t in times:
+        cands += [t, up(float(t)), down(float(t))]
+    r = rng.random()
+    if r < 0.75 and nums:
+        p, v = rng.choice(nums)
+        new = rng.choice(cands)
+        _set(d, p, new)
+        return ("num:" + ".".join(str(k) for k in p if isinstance(k, str)), d)
+    strs = [(p, v) for p, v in _paths(d) if isinstance(v, str) and (not p or p[0] != "metadata")]
+    p, v = rng.choice(strs)
+    names = [dm["name"] for dm in doc["demes"]]
+    new = rng.choice(names + ["", "not a name", "1abc", "nope", "constant", "exponential", "linear", "generations", "x"])
+    _set(d, p, new)
+    return ("str:" + ".".join(str(k) for k in p if isinstance(k, str)), d)
+
+
+def mutate_structure(rng, doc):
+    """(kind, mutant): drop / retype / null / duplicate / add a node anywhere."""
+    d = copy.deepcopy(doc)
+    nodes = [(p, v) for p, v in _paths(d) if p]
+    p, v = rng.choice(nodes)
+    op = rng.choice(["drop", "null", "retype", "dup", "extra", "swap"])
+    try:
+        if op == "drop":
+            _del(d, p)
+        elif op == "null":
+            _set(d, p, None)
+        elif op == "retype":
+            _set(d, p, rng.choice(["str", 3, 2.5, [], {}, [1], ["A"], {"a": 1}, True]))
+        elif op == "dup":
+            parent = d
+            for k in p[:-1]:
+                parent = parent[k]
+            if isinstance(parent, list):
+                parent.insert(p[-1], copy.deepcopy(v))
+            else:
+                return ("noop", d)
+        elif op == "extra":
+            tgt = [q for q, w in _paths(d) if isinstance(w, dict) and (not q or q[0] != "metadata")]
+            q = rng.choice(tgt)
+            x = d
+            for k in q:
+                x = x[k]
+            x[rng.choice(["extra", "start_time", "rate", "name", "defaults", "epochs", "time"])] = rng.choice([1, "x", [], {}])
+        else:
+            parent = d
+            for k in p[:-1]:
+                parent = parent[k]
+            if isinstance(parent, list) and len(parent) > 1:
+                i = p[-1]
+                j = (i + 1) % len(parent)
+                parent[i], parent[j] = parent[j], parent[i]
+            else:
+                return ("noop", d)
+    except Exception:
+        return ("noop", d)
+    return (op + ":" + ".".join(str(k) for k in p if isinstance(k, str)), d)
